@@ -193,16 +193,22 @@ pub const REQUESTS: &[&str] = &[
 ];
 
 /// Message menu: 0 = didChange of the root document, 1 = didOpen/didChange of a second document
-/// (which becomes the root, so that the previous root leaves the workspace), 2.. = the request kinds.
+/// (which becomes the root, so that the previous root leaves the workspace), 2.. = the request kinds,
+/// last = didChange of the root document with the text it already has (a save without an edit).
 pub fn menu_len() -> usize {
-    2 + REQUESTS.len()
+    3 + REQUESTS.len()
+}
+
+fn is_request(m: usize) -> bool {
+    (2..2 + REQUESTS.len()).contains(&m)
 }
 
 fn message_name(m: usize) -> &'static str {
     match m {
         0 => "didChange(a)",
         1 => "touch(b)",
-        _ => REQUESTS[m - 2],
+        m if is_request(m) => REQUESTS[m - 2],
+        _ => "resend(a)",
     }
 }
 
@@ -250,6 +256,7 @@ pub fn execute(scenario: &[usize], prefix: &[usize], dir: &PathBuf) -> Outcome {
                 let mut futures = Vec::new();
                 let mut version = 1;
                 let mut b_open = false;
+                let mut text_of_a = ROOT_TEXT;
                 // message 0 is always didOpen
                 for (k, m) in std::iter::once(usize::MAX).chain(script.iter().copied()).enumerate() {
                     sh.park(Key::Main, Pending::MsgStart(k));
@@ -260,9 +267,16 @@ pub fn execute(scenario: &[usize], prefix: &[usize], dir: &PathBuf) -> Outcome {
                         let _ = router.notify(n);
                     } else if m == 0 {
                         version += 1;
-                        let text = if version % 2 == 0 { ROOT_TEXT2 } else { ROOT_TEXT };
+                        text_of_a = if text_of_a == ROOT_TEXT { ROOT_TEXT2 } else { ROOT_TEXT };
                         let n: AnyNotification = serde_json::from_value(json!({ "method": "textDocument/didChange", "params": {
-                            "textDocument": { "uri": uri, "version": version }, "contentChanges": [ { "text": text } ] } }))
+                            "textDocument": { "uri": uri, "version": version }, "contentChanges": [ { "text": text_of_a } ] } }))
+                        .unwrap();
+                        let _ = router.notify(n);
+                    } else if !is_request(m) && m != 1 {
+                        // the same text again, under a new version
+                        version += 1;
+                        let n: AnyNotification = serde_json::from_value(json!({ "method": "textDocument/didChange", "params": {
+                            "textDocument": { "uri": uri, "version": version }, "contentChanges": [ { "text": text_of_a } ] } }))
                         .unwrap();
                         let _ = router.notify(n);
                     } else if m == 1 {
@@ -389,7 +403,7 @@ pub fn execute(scenario: &[usize], prefix: &[usize], dir: &PathBuf) -> Outcome {
             if let Some(bad) = responses.iter().find(|r| !r.ends_with(": ok")) {
                 out.problem.get_or_insert(("no-response".into(), bad.clone()));
             }
-            let requests = scenario.iter().filter(|&&m| m >= 2).count();
+            let requests = scenario.iter().filter(|&&m| is_request(m)).count();
             if responses.len() != requests {
                 out.problem.get_or_insert(("no-response".into(), format!("{} responses for {requests} requests", responses.len())));
             }
@@ -402,7 +416,7 @@ pub fn execute(scenario: &[usize], prefix: &[usize], dir: &PathBuf) -> Outcome {
         }
     }
     // each open/change publishes at least once (for every file of the workspace it selects)
-    let notifications = 1 + scenario.iter().filter(|&&m| m < 2).count() as u32;
+    let notifications = 1 + scenario.iter().filter(|&&m| !is_request(m)).count() as u32;
     if published < notifications && out.problem.is_none() {
         out.problem = Some(("notification-not-processed".into(), format!("{published} publications for {notifications} open/change notifications")));
     }
@@ -483,10 +497,10 @@ impl Engine for C08 {
 
     fn rule(&self, tier: Tier) -> String {
         format!(
-            "scenarios didOpen ; m2 [; m3 [; m4]] with m in {{didChange of the root document, didOpen/didChange of a second document (the root switches, the old root leaves the workspace), definition, references, hover, documentSymbol, inlayHint, completion, documentLink, foldingRange}}: all {} scenarios; \
+            "scenarios didOpen ; m2 [; m3 [; m4]] with m in {{didChange of the root document (alternating between two texts), didChange of the root document with the text it already has, didOpen/didChange of a second document (the root switches, the old root leaves the workspace), definition, references, hover, documentSymbol, inlayHint, completion, documentLink, foldingRange}}: all {} scenarios; \
              for each, EVERY schedule of the schedule points (message start, file-table lock wants, salsa input writes, task start/finish) is executed on the real Server router with real salsa and the real tokio blocking pool, \
              depth-first over all choice sequences{}. states = distinct (parked threads, program counters, lock model) configurations at choice points; transitions = resumptions; non-trivial = schedules with at least one real choice.",
-            tier.pick("10 two-message and 100 three-message", "10 + 100 + 1000 (two-, three- and four-message)"),
+            tier.pick("11 two-message and 121 three-message", "11 + 121 + 1331 (two-, three- and four-message)"),
             tier.pick("", "; four-message scenarios do not re-expand an already expanded state (sound because handlers are straight-line between schedule points)")
         )
     }
